@@ -453,6 +453,14 @@ func Encode(req int, op Op, nowNs int64) *Wire {
 			if si%2 == 1 {
 				sl.Scope = nil
 			}
+			// a resource with two scopes: the first carries a scope attribute, the second none - records belong to the
+			// scope they stand in
+			twoScopes := si%3 == 0 && sl.Scope != nil
+			var slA *otlpLogs.ScopeLogs
+			if twoScopes {
+				slA = &otlpLogs.ScopeLogs{Scope: &otlpCommon.InstrumentationScope{Name: "simA", Attributes: []*otlpCommon.KeyValue{
+					{Key: "lib.flavour", Value: &otlpCommon.AnyValue{Value: &otlpCommon.AnyValue_StringValue{StringValue: "a"}}}}}}
+			}
 			otlpKey := func(k string) string {
 				k = regexp.MustCompile(`[^a-zA-Z0-9_]`).ReplaceAllString(k, "_")
 				if k == "" || (k[0] >= '0' && k[0] <= '9') {
@@ -486,9 +494,19 @@ func Encode(req int, op Op, nowNs int64) *Wire {
 					rec.SeverityText = "warn"
 					exp["level"] = "warn"
 				}
+				if twoScopes && ei%2 == 0 {
+					exp["lib_flavour"] = "a"
+					x.Labels, x.LabelKey = exp, labelKey(exp)
+					slA.LogRecords = append(slA.LogRecords, rec)
+					w.Rows = append(w.Rows, x)
+					continue
+				}
 				x.Labels, x.LabelKey = exp, labelKey(exp)
 				sl.LogRecords = append(sl.LogRecords, rec)
 				w.Rows = append(w.Rows, x)
+			}
+			if twoScopes {
+				rl.ScopeLogs = append(rl.ScopeLogs, slA)
 			}
 			rl.ScopeLogs = append(rl.ScopeLogs, sl)
 			ld.ResourceLogs = append(ld.ResourceLogs, rl)
